@@ -101,11 +101,22 @@ extern int mpt_queue_recv(MPT_STRUCT(decode_queue) *qu)
 	if (mpt_qpre(&qu->data, max) < 0) {
 		return MPT_ERROR(MissingBuffer);
 	}
-	/* correct data area offsets */
-	qu->_state.data.pos += max;
+	/* keep decoded data at front, new space is needed before encoded data */
+	len = qu->_state.data.pos + qu->_state.data.len;
+	for (res = 0; (size_t) res < len; ) {
+		uint8_t buf[256];
+		size_t part = len - res;
+		if (part > sizeof(buf)) {
+			part = sizeof(buf);
+		}
+		mpt_queue_get(&qu->data, max + res, part, buf);
+		mpt_queue_set(&qu->data, res, part, buf);
+		res += part;
+	}
+	/* correct encoded data offset */
 	qu->_state.curr += max;
 	
-	/* retry with bigger prefix space */
+	/* retry with bigger scratch space */
 	max = vectorSet(&qu->data, src);
 	if ((res = qu->_dec(&qu->_state, src, max)) < 0) {
 		return res;
